@@ -629,11 +629,21 @@ func (c *Client) negotiateVersion(ctx context.Context) error {
 	if !ok || discovered == nil {
 		return fmt.Errorf("Protocol version negotiation failed. Unexpected response payload %T", bi.ResponsePayload)
 	}
-	serverVersions := discovered.ProtocolVersion
-	if len(serverVersions) == 0 {
+	// Adopt the highest version supported by both sides, whatever the order of
+	// the server's list and even if it contains versions we did not offer.
+	var best *kmip.ProtocolVersion
+	for i, v := range discovered.ProtocolVersion {
+		if !slices.Contains(c.supportedVersions, v) {
+			continue
+		}
+		if best == nil || ttlv.CompareVersions(v, *best) > 0 {
+			best = &discovered.ProtocolVersion[i]
+		}
+	}
+	if best == nil {
 		return errors.New("Protocol version negotiation failed. No common version found")
 	}
-	c.version = &serverVersions[0]
+	c.version = best
 	return nil
 }
 
